@@ -438,6 +438,23 @@ func c18Case(c *core.Ctx, i int64, r *rand.Rand, dir string, src []byte, kind st
 			}
 			c.Count("bload_runs_compared", 1)
 		}
+		// the dump arriving on standard input through a pipe, in two pieces with a pause ('cat p.bcb | bcl --bload'), also as '--bload -'
+		if data, rerr := os.ReadFile(bfile); rerr == nil && len(data) > 4 && i%2 == 0 {
+			la := append([]string{"--bload"}, f2...)
+			if i%4 == 2 {
+				la = append(append([]string{}, f2...), "--bload", "-")
+			}
+			g3 := runCLIPiped(dir, data, []int{1, 2, 3, 4, 5, len(data) / 2, len(data) - 1}[int(i/4)%7], la...)
+			c.Eval(1)
+			if g3.timedOut {
+				c.Inconclusive("piped --bload run did not finish")
+			} else if g3.stdout != wantOut || g3.stderr != wantErr || g3.exit != wantExit {
+				c.Violation("cli-bload-differs", fmt.Sprintf("bcl %q with the dump arriving through a pipe: output or exit status differs from the direct run of the source", la), det(la, g3, wantOut, wantErr, wantExit))
+				return
+			} else {
+				c.Count("bload_runs_with_the_dump_on_a_pipe", 1)
+			}
+		}
 	}
 	c.Count("programs_"+kind, 1)
 	c.Nontrivial(core.Hash(src, fmt.Sprint(fl)))
